@@ -529,6 +529,8 @@ func (a Action) String() string {
 		add("node=%s key=%s", a.Node, a.Key)
 	case "cordon":
 		add("node=%s %v", a.Node, a.Flag)
+	case "relabel":
+		add("node=%s %s=%q drop=%v", a.Node, a.Key, a.Val, a.Flag)
 	case "annotate":
 		add("node=%s val=%q remove=%v", a.Node, a.Val, a.Flag)
 	case "asgEdit":
@@ -856,6 +858,19 @@ func (w *World) Apply(a Action) (rec *ScanRecord, ok bool) {
 	case "cordon":
 		if n := w.K.Nodes[a.Node]; n != nil {
 			n.Spec.Unschedulable = a.Flag
+		} else {
+			ok = false
+		}
+	case "relabel": // Flag: the key is dropped altogether
+		if n := w.K.Nodes[a.Node]; n != nil {
+			if n.Labels == nil {
+				n.Labels = map[string]string{}
+			}
+			if a.Flag {
+				delete(n.Labels, a.Key)
+			} else {
+				n.Labels[a.Key] = a.Val
+			}
 		} else {
 			ok = false
 		}
